@@ -30,7 +30,11 @@ from ..repo import norm_src
 class T:
     op: str
     args: tuple = ()
-    maybe_none = False
+
+    @property
+    def maybe_none(self):
+        # parameters (seeded as given), constructed objects and arithmetic results are not None; the result of a call, an attribute or an element may be
+        return self.op in ("call", "attr", "elem", "item", "sub", "computed", "ext", "opaque", "top")
 
     def __repr__(self):
         if self.op == "param":
